@@ -127,6 +127,9 @@ func init() {
 	register(&Rule{ID: "C07.8", Prop: "C07", Min: 3,
 		Text: "the disconnect hook runs exactly once per close path: postDisconnect is called only from closeLocked (once on every path past the CAS) and from the non-redial tail of readDisconnected (once); no other caller",
 		Run:  runC07_8})
+	register(&Rule{ID: "C07.11", Prop: "C07", Min: 4,
+		Text: "a connection rejected by an accept/dial hook leaves the session index: on the non-OK edge of postAccept/postDial at each of the four establishment sites every path to the exit passes a call that reaches SessionHub.delete (sess.Close() or hub.delete) - a hook may already have indexed the session through SetID",
+		Run:  runC07_11})
 	register(&Rule{ID: "C07.10", Prop: "C07", Min: 2,
 		Text: "read gate: in startReadAndHandle goonRead() guards the loop head (ReadMessage only on its true edge) and is re-tested between ReadMessage and the dispatch of the handler goroutine",
 		Run:  runC07_10})
@@ -981,5 +984,61 @@ func runC07_10(c *Ctx) {
 		}
 		c.fact("dominance")
 		c.Check(ok, "post-read gate", p.InstrPos(d), "dispatch only on the true edge of a goonRead() made after ReadMessage", "a message read after the session left Ok/ActiveClosing is still dispatched to a handler (no new handler may start after close)")
+	}
+}
+
+// hookRejectBlocks returns the blocks entered only when hook(...) returned a non-OK status.
+func hookRejectBlocks(p *Prog, fn *ssa.Function, hooks ...*types.Func) []*ssa.BasicBlock {
+	okM := p.MethodObj("github.com/henrylee2cn/goutil/status", "Status", "OK")
+	var out []*ssa.BasicBlock
+	for _, e := range CondCallEdges(fn, okM) {
+		call, ok := e.Recv.(*ssa.Call)
+		if !ok {
+			continue
+		}
+		for _, h := range hooks {
+			if CalleeObj(call) == h {
+				out = append(out, e.False)
+			}
+		}
+	}
+	return out
+}
+
+func runC07_11(c *Ctx) {
+	p := c.P
+	postAccept := p.MethodObj(Root, "pluginSingleContainer", "postAccept")
+	postDial := p.MethodObj(Root, "pluginSingleContainer", "postDial")
+	del := p.Fn(Root, "SessionHub", "delete")
+	n := 0
+	for _, fn := range p.ShippedFuncs() {
+		if fn.Pkg == nil || fn.Pkg.Pkg.Path() != Root {
+			continue
+		}
+		for _, b := range hookRejectBlocks(p, fn, postAccept, postDial) {
+			n++
+			w := &Walk{P: p, Stop: func(i ssa.Instruction) bool {
+				call, ok := i.(ssa.CallInstruction)
+				if !ok {
+					return false
+				}
+				if _, isGo := i.(*ssa.Go); isGo {
+					return false
+				}
+				return p.CallMayReach(call, del, 4)
+			}}
+			w.FromBlock(b)
+			c.fact("must-pass+callgraph-reach")
+			key := "reject edge in " + FnName(fn)
+			pos := p.InstrPos(b.Instrs[0])
+			if len(w.Exits) == 0 && len(w.Hits) > 0 {
+				c.Hold(key, pos, "every path from the reject edge removes the session from the index ("+describeCall(w.Hits[0])+")")
+			} else {
+				c.Viol(key, pos, "a connection rejected by the hook can leave without removing the session from the index: a hook that called SetID before the rejection leaves a never-established session listed by GetSession/CountSession")
+			}
+		}
+	}
+	if n < 4 {
+		c.Undec("reject-edge-count", "", fmt.Sprintf("found %d hook reject edges, expected 4", n))
 	}
 }
